@@ -228,3 +228,159 @@ def walrus_free_chain(a, b):
     if not (a == 1 or b == 2):
         r += 4
     return r
+
+
+# ---------------------------------------------------------------- objects, enums, bytes, defaults, keyword arguments
+import enum as _enum
+from dataclasses import dataclass as _dataclass, field as _field
+
+
+class _Color(_enum.IntEnum):
+    RED = 1
+    GREEN = 2
+    BLUE = 5
+
+
+class _Mode(_enum.Enum):
+    A = 0
+    B = 1
+
+
+@_dataclass
+class _Box:
+    lo: int = 0
+    hi: int = 10
+    tags: list = _field(default_factory=list)
+
+    @property
+    def width(self):
+        return self.hi - self.lo
+
+    def grow(self, by=1):
+        self.hi += by
+        return self.width
+
+    def clip(self, x):
+        if x < self.lo:
+            return self.lo
+        if x > self.hi:
+            raise ValueError("beyond")
+        return x
+
+
+def enum_compare(a, b):
+    c = _Color.RED if a > 0 else _Color.BLUE
+    if c == _Color.RED:
+        return 1 + b
+    return c + b
+
+
+def enum_in_list(a, b):
+    m = _Mode.A if a == b else _Mode.B
+    return 1 if m in [_Mode.A] else 2
+
+
+def enum_identity(a, b):
+    m = _Mode.B if a < 0 else _Mode.A
+    return 3 if m is _Mode.B else 4
+
+
+def object_fields(a, b):
+    x = _Box(a, a + 3)
+    x.grow()
+    x.grow(by=b)
+    return x.width * 10 + x.lo
+
+
+def object_default_factory(a, b):
+    x = _Box()
+    y = _Box()
+    x.tags.append(a)
+    return len(y.tags) * 10 + len(x.tags) + b
+
+
+def callee_raises(a, b):
+    x = _Box(0, 3)
+    try:
+        return x.clip(a) + b
+    except ValueError:
+        return -100
+
+
+def keyword_and_default(a, b):
+    def_box = _Box(hi=a)
+    return def_box.hi * 2 + def_box.lo + b
+
+
+def bytes_len(a, b):
+    d = b"abcdef"
+    n = len(d)
+    return n * 10 + (1 if a else 0) + b
+
+
+def empty_container_truth(a, b):
+    xs = []
+    r = 0
+    if not xs:
+        r += 1
+    if a > 0:
+        xs.append(a)
+    if xs:
+        r += 2
+    d = {}
+    if not d:
+        r += 4
+    d.update({1: b})
+    if d:
+        r += 8
+    return r
+
+
+def dict_membership(a, b):
+    d = {1: 10, 3: 30}
+    r = 0
+    if a in d:
+        r += d[a]
+    if b not in d:
+        r += 1
+    return r
+
+
+def dict_keyerror(a, b):
+    d = {1: 10}
+    try:
+        return d[a] + b
+    except KeyError:
+        return -1
+
+
+def none_default(a, b):
+    x = None
+    if a > 1:
+        x = b
+    y = x if x is not None else 7
+    return y
+
+
+def int_bool_mix(a, b):
+    flag = a > 0
+    return flag + b if flag else b - 1
+
+
+def compare_chain_mixed(a, b):
+    return 1 if a < b <= 3 or a == 5 else 0
+
+
+def string_equal(a, b):
+    s = "x" if a > b else "y"
+    return 1 if s == "x" else 2
+
+
+def reassign_in_branches(a, b):
+    if a > b:
+        m = a
+    else:
+        m = b
+    if m > 2:
+        m = 2
+    return m
